@@ -1014,6 +1014,37 @@ func (env *Env) callExpr(x *ast.CallExpr) EVal {
 		}
 		id := f.App("strings.ToUpper", S64, f.App("uuid_string", S64, t))
 		return EVal{V: Val{id, f.App("strlen", S64, id)}, T: types.Typ[types.String]}
+	case "isobj":
+		// isobj(p): p points to the start of an object that was allocated with p's element type
+		argN(1)
+		v := env.eval(x.Args[0])
+		pt, ok := v.T.Underlying().(*types.Pointer)
+		if !ok {
+			env.fail("isobj needs a pointer")
+		}
+		return env.boolVal(f.And(f.Eq(env.tr.rtype(v.V[0]), f.BVu(64, typeTag(pt.Elem()))), f.Eq(v.V[1], f.BVi(64, 0))))
+	case "isarray":
+		// isarray(s): s is backed by an array allocated as a slice of its element type
+		argN(1)
+		v := env.eval(x.Args[0])
+		if !isSlice(v.T) {
+			env.fail("isarray needs a slice")
+		}
+		return env.boolVal(f.Eq(env.tr.rtype(v.V[0]), f.BVu(64, typeTag(v.T.Underlying()))))
+	case "devsize":
+		// devsize(f): size in bytes of the device behind f (what Seek(0, io.SeekEnd) reports)
+		argN(1)
+		v := env.eval(x.Args[0])
+		return EVal{V: Val{f.App("devsize", S64, env.identity(v))}, T: types.Typ[types.Int64]}
+	case "implements":
+		// implements(x, "interface{...}"): the dynamic type of x has the methods of the given interface (type assertion succeeds)
+		argN(2)
+		v := env.eval(x.Args[0])
+		nm := env.eval(x.Args[1])
+		if nm.C == nil || nm.C.Kind() != constant.String {
+			env.fail("implements: second argument must be a string literal")
+		}
+		return env.boolVal(f.And(f.Neq(v.V[0], f.BVi(64, 0)), f.App("implements_"+sanitize(fmt.Sprintf("%x", strHash(constant.StringVal(nm.C)))), SBool, v.V[0])))
 	case "written":
 		// written(w): total number of bytes passed to w.Write so far (ghost counter of an io.Writer)
 		argN(1)
